@@ -1,7 +1,269 @@
+/-
+C18 — The IDL audit flags every breaking change and nothing else.
+
+  "For every pair of IDL programs, the audit fails if and only if the new program contains at
+  least one of the documented breaking changes relative to the old one (a removed or retyped
+  field, argument, method, operation, service, scope or struct; a requiredness change; an added
+  required field; a removed enum value; a changed scope prefix; a oneway or extends change; an
+  exception-set change on a void method), at whatever position or nesting depth it occurs and
+  through typedefs. Identical programs and the documented compatible edits (renames, added
+  optional fields, renamed prefix variables, namespace or constant changes) always pass."
+
+Model: `FV.Audit.audit` (`FV/Model/Audit.lean`, follows `compiler/parser/audit.go`).
+Catalogue: `FV.Breaking.Breaking` and `FV.Breaking.Compatible` (`FV/Spec/Breaking.lean`),
+written without reference to the model; the readings adopted are listed there.
+Hypothesis `WF` (`FV/Model/Idl.lean`): unique names per kind, unique field ids, typedefs
+acyclic (every type expands within the program's fuel), types resolve. Programs are single
+files (no include-qualified typedef chains: known finding shared with C02).
+-/
 import FV.Model.Audit
 import FV.Spec.Breaking
-namespace FV.C18
-open FV.Idl FV.Audit FV.Breaking
+import FV.Proofs.Audit
 
-theorem c18_placeholder : audit {} {} = [] := by decide
+namespace FV.C18
+open FV.Idl FV.Audit FV.Breaking FV.AuditProofs
+
+/-- The audit fails iff the new program contains a documented breaking change. -/
+theorem c18_iff {old new : Prog} (ho : WF old) (hn : WF new) :
+    (audit old new).any Finding.isError = true ↔ Breaking old new :=
+  audit_iff ho hn
+
+/-! Per checker (each checker of `audit.go` against its part of the catalogue). -/
+
+theorem c18_iff_scopes {old new : Prog} (ho : WF old) (hn : WF new) :
+    (checkScopes (Ctx.of old new) old.scopes new.scopes).any Finding.isError = true ↔
+      ScopesBreaking old new := by
+  have ro := wf_resolves ho
+  have rn := wf_resolves hn
+  obtain ⟨_, _, _, _, _, _, _, nsc, nops, _⟩ := hn
+  exact checkScopes_iff nsc nops ro rn
+
+theorem c18_iff_enums {old new : Prog} (hn : WF new) :
+    (checkEnums old.enums new.enums).any Finding.isError = true ↔ EnumsBreaking old new := by
+  obtain ⟨_, nen, nev, _⟩ := hn
+  exact checkEnums_iff nen nev
+
+theorem c18_iff_structs {old new : Prog} (ho : WF old) (hn : WF new) :
+    ((checkStructLike (Ctx.of old new) (ofKind .struct old.structs) (ofKind .struct new.structs)
+        ++ checkStructLike (Ctx.of old new) (ofKind .exception old.structs) (ofKind .exception new.structs)
+        ++ checkStructLike (Ctx.of old new) (ofKind .union old.structs) (ofKind .union new.structs)).any
+      Finding.isError = true) ↔ StructsBreaking old new := by
+  have ro := wf_resolves ho
+  have rn := wf_resolves hn
+  obtain ⟨_, _, _, _, ofs, _⟩ := ho
+  obtain ⟨_, _, _, nst, nfs, _⟩ := hn
+  rw [List.any_append, List.any_append, Bool.or_eq_true, Bool.or_eq_true, or_assoc]
+  exact structs_iff nst ofs nfs ro rn
+
+theorem c18_iff_services {old new : Prog} (ho : WF old) (hn : WF new) :
+    (checkServices (Ctx.of old new) old.services new.services).any Finding.isError = true ↔
+      ServicesBreaking old new := by
+  have ro := wf_resolves ho
+  have rn := wf_resolves hn
+  obtain ⟨_, _, _, _, _, _, osv, _⟩ := ho
+  obtain ⟨_, _, _, _, _, nsv, nsv', _⟩ := hn
+  exact checkServices_iff nsv (fun s hs => (nsv' s hs).1) (fun s hs => (osv s hs).2)
+    (fun s hs => (nsv' s hs).2) ro rn
+
+/-- Fields, arguments and `throws` lists (`checkFields`): ids, requiredness, removal, addition. -/
+theorem c18_iff_fields {old new : Prog} {ofs nfs : List Field}
+    (ho : fieldsWF ofs) (hn : fieldsWF nfs)
+    (ro : ∀ f ∈ ofs, Resolves old f.ty) (rn : ∀ g ∈ nfs, Resolves new g.ty) :
+    (checkFields (Ctx.of old new) ofs nfs).any Finding.isError = true ↔
+      FieldsBreaking old new ofs nfs :=
+  checkFields_iff ho hn ro rn
+
+/-- `checkType` through `UnderlyingType` on both sides: a message iff the two types differ
+after expanding all typedefs (old typedefs for the old type, new ones for the new type). -/
+theorem c18_iff_types {old new : Prog} {a b : Ty} (ha : Resolves old a) (hb : Resolves new b) :
+    (checkType (Ctx.of old new) false (some a) (some b)).any Finding.isError = true ↔
+      TypeChanged old new a b :=
+  checkType_some ha hb
+
+/-- Any combination of the documented compatible edits passes. -/
+theorem c18_compatible_edits {p p' : Prog} (hw : WF p) (hw' : WF p') (hc : Compatible p p') :
+    (audit p p').any Finding.isError = false := by
+  cases h : (audit p p').any Finding.isError
+  · rfl
+  · exact absurd ((c18_iff hw hw').mp h) (compatible_not_breaking hw hw' hc)
+
+/-- Identical programs pass. -/
+theorem c18_reflexive {p : Prog} (hw : WF p) : (audit p p).any Finding.isError = false :=
+  c18_compatible_edits hw hw (compatible_refl hw)
+
+/-! Some of the compatible edits as functions on programs. -/
+
+/-- Namespace and constant changes (added, removed, changed in any way). -/
+theorem c18_compatible_namespaces_constants {p : Prog} (ns : List Namespace) (cs : List Const)
+    (hw : WF p) (hw' : WF { p with namespaces := ns, consts := cs }) :
+    (audit p { p with namespaces := ns, consts := cs }).any Finding.isError = false :=
+  c18_compatible_edits hw hw' (show Compatible p p from compatible_refl hw)
+
+/-- Renaming struct/union/exception fields and changing their default values, anywhere at
+once: any rewriting `h` of fields that keeps id, type and modifier. -/
+theorem c18_compatible_rename_fields {p : Prog} (h : Field → Field)
+    (hpres : ∀ f, (h f).id = f.id ∧ (h f).ty = f.ty ∧ (h f).mod = f.mod)
+    (hw : WF p)
+    (hw' : WF { p with structs := p.structs.map fun s => { s with fields := s.fields.map h } }) :
+    (audit p { p with structs := p.structs.map fun s => { s with fields := s.fields.map h } }).any
+      Finding.isError = false := by
+  refine c18_compatible_edits hw hw' ?_
+  obtain ⟨c1, c2, c3, _, c5⟩ := compatible_refl hw
+  refine ⟨c1, c2, c3, fun s hs => ?_, c5⟩
+  exact ⟨_, List.mem_map_of_mem hs, rfl, rfl, fieldsCompat_map h hpres⟩
+
+/-- Adding a field that is not `required` (optional or default) to one struct. -/
+theorem c18_compatible_add_field {p : Prog} (target : StructLike) (g : Field)
+    (hg : g.mod ≠ .required) (hw : WF p)
+    (hw' : WF { p with structs := p.structs.map fun s =>
+                  if s = target then { s with fields := s.fields ++ [g] } else s }) :
+    (audit p { p with structs := p.structs.map fun s =>
+                  if s = target then { s with fields := s.fields ++ [g] } else s }).any
+      Finding.isError = false := by
+  refine c18_compatible_edits hw hw' ?_
+  obtain ⟨c1, c2, c3, _, c5⟩ := compatible_refl hw
+  refine ⟨c1, c2, c3, fun s hs => ⟨_, List.mem_map_of_mem hs, ?_⟩, c5⟩
+  by_cases hst : s = target
+  · simp only [hst, if_true, true_and]
+    refine ⟨fun f hf => ⟨f, List.mem_append_left _ hf, rfl, rfl, Iff.rfl⟩, fun g' hg' hreq => ?_⟩
+    rcases List.mem_append.mp hg' with h | h
+    · exact ⟨g', h, rfl⟩
+    · rw [List.mem_singleton.mp h] at hreq; exact absurd hreq hg
+  · simp only [hst, if_false, true_and]
+    exact fieldsCompat_refl _
+
+/-- Adding a method to one service. -/
+theorem c18_compatible_add_method {p : Prog} (target : Service) (m : Method) (hw : WF p)
+    (hw' : WF { p with services := p.services.map fun s =>
+                  if s = target then { s with methods := s.methods ++ [m] } else s }) :
+    (audit p { p with services := p.services.map fun s =>
+                  if s = target then { s with methods := s.methods ++ [m] } else s }).any
+      Finding.isError = false := by
+  refine c18_compatible_edits hw hw' ?_
+  obtain ⟨c1, c2, c3, c4, _⟩ := compatible_refl hw
+  refine ⟨c1, c2, c3, c4, fun s hs => ⟨_, List.mem_map_of_mem hs, ?_⟩⟩
+  have mc : ∀ x : Method, MethodCompat x x :=
+    fun x => ⟨rfl, rfl, fieldsCompat_refl _, fieldsCompat_refl _, fun _ h => h⟩
+  by_cases hst : s = target
+  · simp only [hst, if_true, true_and]
+    exact ⟨Or.inr trivial, fun x hx => ⟨x, List.mem_append_left _ hx, rfl, mc x⟩⟩
+  · simp only [hst, if_false, true_and]
+    exact ⟨Or.inr trivial, fun x hx => ⟨x, hx, rfl, mc x⟩⟩
+
+/-- Renaming prefix variables of every scope (`h` renames variables, keeps literals). -/
+theorem c18_compatible_rename_prefix_variables {p : Prog} (h : Name → Name) (hw : WF p)
+    (hw' : WF { p with scopes := p.scopes.map fun s => { s with pfx := s.pfx.map fun
+                  | .var n => .var (h n)
+                  | .lit t => .lit t } }) :
+    (audit p { p with scopes := p.scopes.map fun s => { s with pfx := s.pfx.map fun
+                  | .var n => .var (h n)
+                  | .lit t => .lit t } }).any Finding.isError = false := by
+  refine c18_compatible_edits hw hw' ?_
+  obtain ⟨c1, _, c3, c4, c5⟩ := compatible_refl hw
+  refine ⟨c1, fun s hs => ⟨_, List.mem_map_of_mem hs, rfl, ?_, fun o ho => ⟨o, ho, rfl, rfl⟩⟩, c3, c4, c5⟩
+  generalize s.pfx = l
+  induction l with
+  | nil => trivial
+  | cons a l ih => exact ⟨by cases a <;> simp [tokAgree], ih⟩
+
+/-- A type change nested at any depth inside containers is reported by `checkType`
+(induction over the one-hole context `c`; typedefs may occur anywhere on the way). -/
+theorem c18_any_depth_types {old new : Prog} (c : TyCtx) {a b : Ty}
+    (hra : Resolves old (c.plug a)) (hrb : Resolves new (c.plug b))
+    (hab : ∃ x y, ResTo old.typedefs a x ∧ ResTo new.typedefs b y ∧ x ≠ y) :
+    (checkType (Ctx.of old new) false (some (c.plug a)) (some (c.plug b))).any Finding.isError = true :=
+  (checkType_some hra hrb).mpr (typeChanged_plug c hra hrb hab)
+
+/-- …and makes the whole audit fail: a struct/union/exception field whose type changed at any
+depth, in any struct, at any position. -/
+theorem c18_any_depth {old new : Prog} (ho : WF old) (hn : WF new)
+    {s s' : StructLike} {f g : Field} (hs : s ∈ old.structs) (hs' : s' ∈ new.structs)
+    (hk : s'.kind = s.kind) (hname : s'.name = s.name)
+    (hf : f ∈ s.fields) (hg : g ∈ s'.fields) (hid : g.id = f.id)
+    (c : TyCtx) {a b : Ty} (hfa : f.ty = c.plug a) (hgb : g.ty = c.plug b)
+    (hab : ∃ x y, ResTo old.typedefs a x ∧ ResTo new.typedefs b y ∧ x ≠ y) :
+    (audit old new).any Finding.isError = true := by
+  rw [c18_iff ho hn]
+  refine Or.inr (Or.inr (Or.inl ⟨s, hs, Or.inr ⟨s', hs', hk, hname, Or.inl ⟨f, hf, g, hg, hid, Or.inl ?_⟩⟩⟩))
+  rw [hfa, hgb]
+  exact typeChanged_plug c (hfa ▸ wf_resolves ho _ (mem_allTys_field hs hf))
+    (hgb ▸ wf_resolves hn _ (mem_allTys_field hs' hg)) hab
+
+/-- The same for an argument of a method of a service. -/
+theorem c18_any_depth_argument {old new : Prog} (ho : WF old) (hn : WF new)
+    {s s' : Service} {m m' : Method} {f g : Field} (hs : s ∈ old.services) (hs' : s' ∈ new.services)
+    (hname : s'.name = s.name) (hm : m ∈ s.methods) (hm' : m' ∈ s'.methods) (hmn : m'.name = m.name)
+    (hf : f ∈ m.args) (hg : g ∈ m'.args) (hid : g.id = f.id)
+    (c : TyCtx) {a b : Ty} (hfa : f.ty = c.plug a) (hgb : g.ty = c.plug b)
+    (hab : ∃ x y, ResTo old.typedefs a x ∧ ResTo new.typedefs b y ∧ x ≠ y) :
+    (audit old new).any Finding.isError = true := by
+  rw [c18_iff ho hn]
+  refine Or.inr (Or.inr (Or.inr ⟨s, hs, Or.inr ⟨s', hs', hname, Or.inr ⟨m, hm, Or.inr ⟨m', hm', hmn,
+    Or.inr (Or.inr (Or.inl (Or.inl ⟨f, hf, g, hg, hid, Or.inl ?_⟩)))⟩⟩⟩⟩))
+  rw [hfa, hgb]
+  have mem_arg : ∀ (m : Method) f, f ∈ m.args → f.ty ∈ m.tys := by
+    intro m f h; simp only [Method.tys, List.mem_append, List.mem_map]; exact Or.inl (Or.inr ⟨f, h, rfl⟩)
+  exact typeChanged_plug c (hfa ▸ wf_resolves ho _ (mem_allTys_method hs hm (mem_arg m f hf)))
+    (hgb ▸ wf_resolves hn _ (mem_allTys_method hs' hm' (mem_arg m' g hg))) hab
+
+/-! ### Non-vacuity: the hypotheses are satisfiable by non-trivial programs -/
+
+/-- typedef chain `Id → Key → i64`, nested containers, union, exception, service with
+`extends`/oneway/throws, scope with a prefix. -/
+def exOld : Prog where
+  typedefs := [⟨"Key", .base "i64"⟩, ⟨"Id", .named "Key"⟩, ⟨"Index", .map (.named "Id") (.list (.named "Item"))⟩]
+  enums := [⟨"Color", [⟨"RED", 0⟩, ⟨"GREEN", 2⟩]⟩]
+  structs := [
+    ⟨.struct, "Item", [⟨1, "id", .required, .named "Id", none⟩, ⟨2, "tags", .dflt, .set (.base "string"), none⟩,
+                       ⟨5, "color", .optional, .named "Color", none⟩]⟩,
+    ⟨.struct, "Box", [⟨1, "index", .dflt, .named "Index", none⟩,
+                      ⟨2, "deep", .dflt, .list (.map (.base "string") (.set (.named "Id"))), none⟩]⟩,
+    ⟨.union, "Either", [⟨1, "a", .optional, .base "i32", none⟩, ⟨2, "b", .optional, .named "Item", none⟩]⟩,
+    ⟨.exception, "Oops", [⟨1, "code", .dflt, .base "i32", some "0"⟩]⟩]
+  services := [
+    ⟨"Base", none, [⟨"ping", true, none, [], []⟩]⟩,
+    ⟨"Store", some "Base", [⟨"get", false, some (.named "Item"), [⟨1, "id", .dflt, .named "Id", none⟩],
+                              [⟨1, "err", .optional, .named "Oops", none⟩]⟩,
+                            ⟨"put", false, none, [⟨1, "item", .dflt, .named "Item", none⟩], []⟩]⟩]
+  scopes := [⟨"Events", [.lit "v1", .var "tenant", .lit "items"], [⟨"Created", .named "Item"⟩]⟩]
+  namespaces := [⟨"go", "store"⟩]
+  consts := [⟨"MAX", .base "i32", "10"⟩]
+
+example : WF exOld := by decide
+
+/-- Compatible edits only: field renamed, default field added, prefix variable renamed,
+method added, typedef spelled out (`Id` → `Key`), namespace changed. -/
+def exCompat : Prog := { exOld with
+  structs := [
+    ⟨.struct, "Item", [⟨1, "ident", .required, .named "Key", none⟩, ⟨2, "tags", .dflt, .set (.base "string"), none⟩,
+                       ⟨5, "color", .optional, .named "Color", none⟩, ⟨7, "note", .optional, .base "string", none⟩]⟩,
+    ⟨.struct, "Box", [⟨1, "index", .dflt, .named "Index", none⟩,
+                      ⟨2, "deep", .dflt, .list (.map (.base "string") (.set (.base "i64"))), none⟩]⟩,
+    ⟨.union, "Either", [⟨1, "a", .optional, .base "i32", none⟩, ⟨2, "b", .optional, .named "Item", none⟩]⟩,
+    ⟨.exception, "Oops", [⟨1, "code", .dflt, .base "i32", some "1"⟩]⟩]
+  scopes := [⟨"Events", [.lit "v1", .var "customer", .lit "items"], [⟨"Created", .named "Item"⟩]⟩]
+  namespaces := [⟨"go", "store2"⟩] }
+
+example : WF exCompat := by decide
+example : ¬ Breaking exOld exCompat := by decide
+example : (audit exOld exCompat).any Finding.isError = false := by decide
+/-- (the typedef-spelling edit is outside `Compatible`, which keeps types syntactically) -/
+example : Compatible exOld { exCompat with structs := exOld.structs } := by decide
+
+/-- One breaking edit three levels deep behind a typedef: `Key` becomes `i32`, which changes
+`Box.deep : list<map<string, set<Id>>>` and everything else that mentions `Id` or `Key`. -/
+def exBroken : Prog := { exOld with
+  typedefs := [⟨"Key", .base "i32"⟩, ⟨"Id", .named "Key"⟩, ⟨"Index", .map (.named "Id") (.list (.named "Item"))⟩] }
+
+example : WF exBroken := by decide
+example : Breaking exOld exBroken := by decide
+example : (audit exOld exBroken).any Finding.isError = true := by decide
+
+/-- The hypotheses of `c18_any_depth` on that pair: context `list<map<string, set<□>>>`. -/
+example : ∃ x y, ResTo exOld.typedefs (.named "Id") x ∧ ResTo exBroken.typedefs (.named "Id") y ∧ x ≠ y :=
+  ⟨.base "i64", .base "i32", ⟨3, by decide⟩, ⟨3, by decide⟩, by decide⟩
+
+example : (TyCtx.list (.mapVal (.base "string") (.set .hole))).plug (.named "Id")
+    = .list (.map (.base "string") (.set (.named "Id"))) := rfl
+
 end FV.C18
